@@ -308,6 +308,20 @@ def run(ctx):
     # ---- a calling act that declares a catch for the child's error: the call is closed once, after the child has ended — by the catch
     from . import c06
     ccs = [c06.call_catch_scenario(Rng(ctx.seed * 8191 + k), k) for k in range(40 if ctx.tier == "quick" else 500)]
+    # ---- … or a timeout rule: the end of the rule's steps does not close the call while the child still runs
+    for k in range(20 if ctx.tier == "quick" else 200):
+        r = Rng(ctx.seed * 12289 + k)
+        hacts = r.pick([[], [{"id": "t1a", "uses": gen.MSG, "key": "kt1a"}], [{"id": "t1a", "uses": gen.IRQ, "key": "kt1a"}]])
+        call = {"id": "call1", "uses": SUB, "params": {"to": "c1", "options": {"pid": "p1-call1"}},
+                "timeout": [{"on": "2s", "steps": [{"id": "t1", "acts": hacts}]}]}
+        parent = {"id": "m1", "steps": [{"id": "s1", "acts": [call]}, {"id": "s2", "acts": [{"id": "z", "uses": gen.IRQ, "key": "kz"}]}]}
+        child = {"id": "c1", "steps": [{"id": "cs1", "acts": [{"id": "ci", "uses": gen.IRQ, "key": "kci"}]}]}
+        ops = [["deploy", 0], ["deploy", 1], ["clock", r.below(900)], ["start", "m1", {"pid": "p1"}], ["runall"],
+               ["tick", r.pick([2000, 2500, 9000])], ["runall"], ["act", "next", "p1", {"open": 0}, {}], ["runall"], ["tick", 1000], ["runall"],
+               ["act", r.pick(["next", "next", "skip"]), "p1-call1", {"nid": "ci", "k": -1}, {}], ["runall"]]
+        for _ in range(3):
+            ops += [["act", "next", "p1", {"open": 0}, {}], ["runall"]]
+        ccs.append({"id": f"c15-call-timeout-{k}", "config": {"keep": True, "dump_each": True}, "models": [parent, child], "ops": ops, "exprs": {}})
     cres = ctx.harness("run", ccs, tag="cc")
     for sc, res in zip(ccs, cres):
         ctx.cov["evaluations"] += 1
@@ -336,7 +350,7 @@ def run(ctx):
         elif any(c[0] < child_end_at for c in closes):
             bad = ("call-catch|closed-before-child-ended", f"the calling act was closed ({closes}) before the child's terminal event")
         elif len(finals) != 1 or finals[0][1] != "completed":
-            bad = ("call-catch|call-not-closed-once", f"after the catch took the child's error the calling act ended {[c[1] for c in finals]} (expected once, completed); all endings {[c[1] for c in closes]}")
+            bad = ("call-catch|call-not-closed-once", f"after the child had ended the calling act ended {[c[1] for c in finals]} (expected once, completed); all endings {[c[1] for c in closes]}")
         elif last is not None and last["state"] != "completed":
             bad = ("call-catch|caller-not-finished", f"every interrupt was answered, the caller is {last['state']}")
         if bad:
@@ -344,6 +358,22 @@ def run(ctx):
             ctx.violation(f"C15|{bad[0]}", bad[1], {"scenario": sc})
         else:
             ctx.nontrivial(["call-catch", sc["models"], sc["ops"]])
+    # ---- (recorded finding, fixed scenario) a return the calling act cannot take: it declares an output the child does not deliver
+    parent = {"id": "m1", "steps": [{"id": "s1", "acts": [{"id": "call1", "uses": SUB, "params": {"to": "c1", "options": {"pid": "p1-call1"}}, "outputs": {"r": None}}]},
+                                    {"id": "s2", "acts": [{"id": "z", "uses": gen.IRQ, "key": "kz"}]}]}
+    child = {"id": "c1", "steps": [{"id": "cs1", "acts": [{"id": "ci", "uses": gen.IRQ, "key": "kci"}]}]}
+    fsc = {"id": "c15-return-refused", "config": {"keep": True, "dump_each": True}, "models": [parent, child], "exprs": {},
+           "ops": [["deploy", 0], ["deploy", 1], ["start", "m1", {"pid": "p1"}], ["runall"], ["act", "next", "p1-call1", {"nid": "ci", "k": -1}, {}], ["runall"], ["runall"]]}
+    fres = ctx.harness("run", [fsc], tag="rr")[0]
+    ctx.cov["evaluations"] += 1
+    last = {}
+    for _, o in obs_of(fres, {"dump"}):
+        if not o.get("absent"):
+            last[o["pid"]] = o
+    if last.get("p1-call1", {}).get("state") == "completed" and last.get("p1", {}).get("state") == "running" and \
+            any(t["nid"] == "call1" and t["state"] == "running" for t in last["p1"]["tasks"]):
+        ctx.violation("C15|return-refused|declared-output-missing", "the child has ended, the calling act (which declares an output the child does not deliver) "
+                      "is still running and nothing is in flight: the return was refused", {"scenario": fsc})
     ctx.sample({"model": scs[0]["models"][0], "ops": scs[0]["ops"][:8]}, limit=1)
     ctx.cov["correspondence"] = {"distribution": dict(tot), "streams_compared": ["start / terminal events and root inputs of every child against the call that started it", "state, outputs and error of the calling act against the child's ending",
                                                                                "order of terminal events of caller and child"]}
